@@ -3,9 +3,11 @@
    invariants of ShouldAccept and prints every scenario for replay. *)
 EXTENDS CertVerifyDefs
 Certs == {"valid", "wrongname", "untrusted", "expired", "notyet"}
-Names == {"example.com", "another.example"}
+\* an IP literal is never sent as SNI (RFC 6066) but is still the name to verify
+Names == {"example.com", "another.example", "192.0.2.7"}
 ITVs == {"", "*", "example.com", "another.example"}
-ConnCfgs(clocks) == [server_name : Names, itv : ITVs, skip_time : BOOLEAN, skip_verify : BOOLEAN, clock : clocks]
+\* remove_sni: the caller drops the server_name extension (RemoveSNIExtension); verification is unaffected by what is sent
+ConnCfgs(clocks) == [server_name : Names, itv : ITVs, skip_time : BOOLEAN, skip_verify : BOOLEAN, clock : clocks, remove_sni : BOOLEAN]
 \* fresh: one connection; resumed: a first connection that succeeds and a second one that shares ServerName (the cache key)
 Permissive(k) == [k EXCEPT !.skip_verify = TRUE]
 Strict(k) == [k EXCEPT !.skip_verify = FALSE, !.skip_time = FALSE, !.itv = "", !.clock = 0]
